@@ -172,7 +172,11 @@ def main(argv=None):
             print(f'NOTE property={pid} also undecided, no failing input found for: ' + ', '.join(sorted(open_obs)))
     failed_obs = {f'{f.unit}:{f.obligation}' for f in fails}
     kf_obs = sorted({f'{f.unit}:{f.obligation}' for f, _ in known_hits} - {f'{x.unit}:{x.obligation}' for v in viol.values() for x in v})
-    counted = [o for o in obligations if o not in kf_obs]
+    # bounded stand-ins are run and can fail the check, but they are never counted among the discharged obligations
+    is_bounded = lambda o: (o.split(':', 1)[1] if ':' in o else o).startswith('bounded:')
+    bounded_all = [o for o in obligations if is_bounded(o) and o not in kf_obs]
+    bounded_ok = [o for o in bounded_all if o not in failed_obs]
+    counted = [o for o in obligations if o not in kf_obs and not is_bounded(o)]
     discharged = [o for o in counted if o not in failed_obs]
 
     # ---- report
@@ -248,6 +252,8 @@ def main(argv=None):
     for o in counted:
         byk[_kind(o)] = byk.get(_kind(o), 0) + 1
     cov['obligations_by_deciding_step'] = byk
+    if bounded_all:
+        cov['bounded_checks_not_counted_as_proved'] = {'run': len(bounded_all), 'passed': len(bounded_ok), 'labels': bounded_all[:40]}
     if extra:
         cov.update(extra.get('coverage', {}))
     if selftest is not None:
@@ -265,7 +271,8 @@ def main(argv=None):
         rc = 2
     if rc == 0:
         print(f'OK property={pid} tier={a.tier} obligations={len(counted)} discharged={len(discharged)} '
-              f'known_findings={len(kf_obs)} wall={time.time() - t0:.1f}s')
+              f'known_findings={len(kf_obs)}' + (f' bounded_checks={len(bounded_ok)}/{len(bounded_all)}(not counted)' if bounded_all else '') +
+              f' wall={time.time() - t0:.1f}s')
     return rc
 
 
